@@ -446,6 +446,13 @@ def run_property(prop, modname, tier, level, title='', record_baseline=False):  
     aux_names = set()
     for (name, model, detail, cname, smt2) in violations:
         m_ = re.match(r'(C\d\d)/', name)
+        mm_ = re.match(r'((?:C\d\d\+)+C\d\d)/', name)
+        if mm_ and prop in mm_.group(1).split('+'):
+            # an obligation that belongs to several properties (label
+            # 'C01+C06'): counts for each of them
+            m_ = re.match(r'(C\d\d)', prop)
+        elif mm_:
+            m_ = re.match(r'(C\d\d)', mm_.group(1))
         c_ = by_contract.get(cname)
         if not m_ and c_ is not None and c_.replay is not None and \
                 model is not None:
